@@ -23,6 +23,7 @@ func init() {
 	reg("C17", "C17.R1", "E6", "the rewritten value is tiled from input gaps and masked sections of exactly the matched groups", 5, ruleMaskTiling)
 	reg("C17", "C17.R2", "E6", "the section masker lets no input byte through", 3, ruleMaskSectionOpaque)
 	reg("C17", "C17.R3", "E2", "applied marks, counters and the value update only after a reported match; flags derive only from those results", 6, ruleMaskMarksExact)
+	reg("C17", "C17.R5", "E7", "match-rule gate: a value is rejected by length only when shorter than the shortest configured value", 2, ruleMatchRuleLengthGate)
 	reg("C17", "C17.R4", "E2", "the traversal recurses into every element and reaches every string/number leaf", 4, ruleMaskTraversalCovers)
 }
 
@@ -732,8 +733,8 @@ func ruleMaskMarksExact(c *Ctx, r *Rule) {
 	applied := map[*ssa.Function]bool{s.process: true, s.traverse: true}
 	fromApplied := func(v ssa.Value) (bool, string) {
 		seen := map[ssa.Value]bool{}
-		var chk func(v ssa.Value, at *ssa.BasicBlock) (bool, string)
-		chk = func(v ssa.Value, at *ssa.BasicBlock) (bool, string) {
+		var chk func(v ssa.Value, at, to *ssa.BasicBlock) (bool, string)
+		chk = func(v ssa.Value, at, to *ssa.BasicBlock) (bool, string) {
 			if seen[v] {
 				return true, ""
 			}
@@ -742,12 +743,22 @@ func ruleMaskMarksExact(c *Ctx, r *Rule) {
 				if !b {
 					return true, ""
 				}
-				// constant true: only where an applied-function's result is known true
+				// constant true: only where an applied-function's result (or a flag that itself derives
+				// from such results, as in `flag || f()`) is known true
 				if at != nil {
-					for _, cl := range c.guards(at.Parent())[at] {
+					facts := c.guards(at.Parent())[at]
+					if to != nil {
+						facts = c.edgeFacts(c.info(at.Parent()), at, to)
+					}
+					for _, cl := range facts {
 						if len(cl) == 1 && cl[0].pol {
 							if cc, isCall := cl[0].v.(*ssa.Call); isCall && applied[cc.Call.StaticCallee()] {
 								return true, ""
+							}
+							if p, isPhi := cl[0].v.(*ssa.Phi); isPhi {
+								if ok, _ := chk(p, nil, nil); ok {
+									return true, ""
+								}
 							}
 						}
 					}
@@ -759,7 +770,7 @@ func ruleMaskMarksExact(c *Ctx, r *Rule) {
 			}
 			if p, isPhi := v.(*ssa.Phi); isPhi {
 				for i, e := range p.Edges {
-					if ok, why := chk(e, p.Block().Preds[i]); !ok {
+					if ok, why := chk(e, p.Block().Preds[i], p.Block()); !ok {
 						return false, why
 					}
 				}
@@ -767,7 +778,7 @@ func ruleMaskMarksExact(c *Ctx, r *Rule) {
 			}
 			return false, "derived from " + c.path(v)
 		}
-		return chk(v, nil)
+		return chk(v, nil, nil)
 	}
 	for i, ret := range returnsOf(s.traverse) {
 		r.Inst(1)
@@ -934,6 +945,57 @@ func ruleMaskTraversalCovers(c *Ctx, r *Rule) {
 		}
 		r.Ob(okG, name+"|leaf-reaches-per-value-function", ci.Pos(), "string and number leaves reach the per-value function under node-kind tests only"+ifs(why != "", "; extra condition "+why))
 	}
+	// Do: every configured process field that exists is traversed (no short-circuit over the list)
+	if do := s.do; do != nil {
+		nD := 0
+		for _, ci := range callsIn(do) {
+			if jsonMethod(ci) != "Dig" {
+				continue
+			}
+			dig, ok := ci.(*ssa.Call)
+			if !ok || loopHeadOf(dig) == nil {
+				continue
+			}
+			// only digs of an element of the configured path list
+			el, isEl := dig.Call.Args[len(dig.Call.Args)-1].(*ssa.UnOp)
+			if !isEl {
+				continue
+			}
+			if ia, isIA := el.X.(*ssa.IndexAddr); !isIA || !isLoadOfField(ia.X, maskPkg, "Plugin", "fieldPaths") {
+				continue
+			}
+			nD++
+			r.Inst(1)
+			head := loopHeadOf(dig)
+			first := head.Instrs[0]
+			skip, _ := c.pathExistsE(do, dig, func(in ssa.Instruction) bool { return in == first || isReturn(in) }, func(in ssa.Instruction) bool {
+				cj, isCall := in.(ssa.CallInstruction)
+				if !isCall || calleeFunc(cj) != fn {
+					return false
+				}
+				for _, a := range cj.Common().Args {
+					if a == ssa.Value(dig) {
+						return true
+					}
+				}
+				return false
+			}, func(b *ssa.BasicBlock, i int) bool {
+				iff, ok := b.Instrs[len(b.Instrs)-1].(*ssa.If)
+				if !ok {
+					return true
+				}
+				v, pol := peelNot(iff.Cond, i == 0)
+				if bo, isBo := v.(*ssa.BinOp); isBo && (bo.X == ssa.Value(dig) && isNilConst(bo.Y) || bo.Y == ssa.Value(dig) && isNilConst(bo.X)) {
+					// the missing-field edge is the one allowed way round
+					if (bo.Op == token.EQL && pol) || (bo.Op == token.NEQ && !pol) {
+						return false
+					}
+				}
+				return true
+			})
+			r.Ob(!skip && !c.loopBodyExits(do, head), fmt.Sprintf("%s|process-field#%d|always-traversed", c.fnName(do), nD), dig.Pos(), "every configured process field that exists in the event is traversed, whatever the earlier ones reported")
+		}
+	}
 	// a field recurses into its value
 	fv := false
 	for _, ci := range callsIn(fn) {
@@ -951,4 +1013,109 @@ func ruleMaskTraversalCovers(c *Ctx, r *Rule) {
 	}
 	r.Inst(1)
 	r.Ob(fv, name+"|field-recurses-into-value", fn.Pos(), "a field node recurses into its value")
+}
+
+// ruleMatchRuleLengthGate: the match rules that gate a mask (and the antispam exceptions) reject
+// a value by its length only when it is shorter than the SHORTEST configured value.
+func ruleMatchRuleLengthGate(c *Ctx, r *Rule) {
+	const mrPkg = modulePath + "/cfg/matchrule"
+	prep := c.Method("cfg/matchrule", "Rule", "Prepare")
+	match := c.Method("cfg/matchrule", "Rule", "match")
+	if prep == nil || match == nil {
+		r.Unresolved("matchrule Rule.Prepare / Rule.match")
+		return
+	}
+	// classify the length fields written by Prepare: running minimum / running maximum
+	c.guards(prep)
+	kind := map[string]string{}
+	for _, b := range prep.Blocks {
+		for _, in := range b.Instrs {
+			st, ok := in.(*ssa.Store)
+			if !ok {
+				continue
+			}
+			o, f, _, ok := fieldOf(st.Addr)
+			if !ok || o == nil || o.Obj().Name() != "Rule" || !isIntegerType(st.Val.Type()) {
+				continue
+			}
+			w := phiWeb(st.Val)
+			if len(w.phis) == 0 {
+				continue
+			}
+			k := ""
+			okAll := true
+			for _, e := range w.inputs {
+				call, isLen := e.(*ssa.Call)
+				if !isLen {
+					okAll = false
+					continue
+				}
+				if bi, isB := call.Call.Value.(*ssa.Builtin); !isB || bi.Name() != "len" {
+					okAll = false
+					continue
+				}
+				// the update is guarded by a comparison of that length with the running value
+				g := ""
+				for p := range w.phis {
+					for i, pe := range p.Edges {
+						if pe != e {
+							continue
+						}
+						for _, l := range unitLits(c.edgeFacts(c.info(prep), p.Block().Preds[i], p.Block())) {
+							if op, x, y, isCmp := cmpLit(l); isCmp && w.has(y) && (sameValue(x, e) || c.path(x) == c.path(e)) {
+								switch op {
+								case token.LSS, token.LEQ:
+									g = "min"
+								case token.GTR, token.GEQ:
+									g = "max"
+								}
+							}
+						}
+					}
+				}
+				if g == "" {
+					continue // the initial value (first element) is not guarded
+				}
+				if k != "" && k != g {
+					okAll = false
+				}
+				k = g
+			}
+			if okAll && k != "" {
+				kind[f] = k
+			}
+		}
+	}
+	r.Inst(len(kind))
+	r.Ob(len(kind) >= 1, "matchrule.Rule.Prepare|length-bounds", prep.Pos(), fmt.Sprintf("Prepare computes the running minimum / maximum of the configured values' lengths: %v", kind))
+	n := 0
+	for _, ret := range returnsOf(match) {
+		b, isB := constBool(retResults(ret)[0])
+		if !isB || b {
+			continue
+		}
+		for _, l := range c.unitGuards(ret) {
+			op, x, y, ok := cmpLit(l)
+			if !ok || op != token.LSS {
+				continue
+			}
+			f := lin(x)
+			isLenOfParam := false
+			for key := range f.t {
+				if _, isP := key.v.(*ssa.Parameter); isP && key.isLen {
+					isLenOfParam = true
+				}
+			}
+			if !isLenOfParam {
+				continue
+			}
+			n++
+			r.Inst(1)
+			_, fld, _, isFld := loadedField(y)
+			r.Ob(isFld && kind[fld] == "min", fmt.Sprintf("matchrule.Rule.match|length-gate#%d", n), ret.Pos(),
+				"a value is rejected by its length only when it is shorter than the shortest configured value (compared with "+c.path(y)+", which Prepare computes as "+kind[fld]+")")
+		}
+	}
+	r.Ob(n >= 1, "matchrule.Rule.match|has-length-gate", match.Pos(), "the match has a length short-cut")
+	_ = mrPkg
 }
